@@ -188,6 +188,11 @@ def run(ctx):
                         "each entry is appended exactly once, preceded by the separator for every entry but the first", x.loc(x.line),
                         detail="; ".join(bad), fail="the join of a variable's entries is wrong: " + "; ".join(bad))
 
+    try:
+        from .. import evrules
+        evrules.accessor(ctx, "R17.3", "paths")     # "every path of every event" = exactly its Tag::Path tags
+    except Skip:
+        pass
     # ---- R17.3 skip rules (THIR paths of the per-event loop)
     en = pathx.Enum(interesting=lambda d: not any(strip_generics(d).startswith(x) for x in ("core::clone::Clone::clone", "core::convert::", "core::ops::deref", "core::fmt", "alloc::borrow::ToOwned")))
     fps = en.paths(thir.root(f))
